@@ -275,7 +275,7 @@ func c03TLSLayer(r *vu.Rng, objs []client.Object) []client.Object {
 		objs = append(objs, tr)
 	}
 	objs = append(objs, &apiv1.Service{ObjectMeta: metav1.ObjectMeta{Namespace: gw.Namespace, Name: "svc-tls"},
-		Spec: apiv1.ServiceSpec{IPFamilies: []apiv1.IPFamily{apiv1.IPv4Protocol}, Ports: []apiv1.ServicePort{{Name: "p443", Port: 443}}}})
+		Spec: apiv1.ServiceSpec{IPFamilies: []apiv1.IPFamily{apiv1.IPv4Protocol}, Ports: []apiv1.ServicePort{{Name: "p80", Port: 443}}}}) // the port name of c01Slice: the Service has ready endpoints
 	objs = append(objs, c01Slice(gw.Namespace, "svc-tls", "x1", []string{"10.1.1.1"}, true, 1))
 	return objs
 }
